@@ -119,7 +119,7 @@ func vInvariant(st *vStep, pre *vPre) {
 		ok1 = verifAnd(ok1, verifImplies(verifSlotPresent(i.nicks, j),
 			verifAnd(s.Nick != "", k == NickToLower(s.Nick), vLive(i, s), !s.deleted)))
 	}
-	verifAssert(ok1, "inv-nick-index-entries-are-live-sessions-under-lowered-nick")
+	vA(st, ok1, "inv-nick-index-entries-are-live-sessions-under-lowered-nick")
 	// every live session with a nickname is reachable through the index (hence nicks are unique)
 	ns := verifSlots(i.sessions)
 	ok2, ok7, okv := true, true, true
@@ -134,9 +134,9 @@ func vInvariant(st *vStep, pre *vPre) {
 		ok7 = verifAnd(ok7, verifImplies(present, !s.deleted))
 		okv = verifAnd(okv, verifImplies(verifAnd(present, s.Nick != "", s.Id.Reply == 0, !s.Server), IsValidNickname(s.Nick)))
 	}
-	verifAssert(ok2, "inv-every-named-session-owns-its-lowered-nick")
-	verifAssert(ok7, "inv-no-deleted-session-remains")
-	verifAssert(okv, "inv-client-nicknames-valid")
+	vA(st, ok2, "inv-every-named-session-owns-its-lowered-nick")
+	vA(st, ok7, "inv-no-deleted-session-remains")
+	vA(st, okv, "inv-client-nicknames-valid")
 	// 2/3. channels
 	nc := verifSlots(i.channels)
 	okc, okm, oke := true, true, true
@@ -166,9 +166,9 @@ func vInvariant(st *vStep, pre *vPre) {
 			okm = verifAnd(okm, verifImplies(verifAnd(present, verifSlotPresent(i.sessions, r), s.Channels[lc]), vChanHasNick(ch, NickToLower(s.Nick))))
 		}
 	}
-	verifAssert(okc, "inv-channel-names-valid-and-keyed-by-lowered-name")
-	verifAssert(okm, "inv-membership-symmetric")
-	verifAssert(oke, "inv-no-empty-channel")
+	vA(st, okc, "inv-channel-names-valid-and-keyed-by-lowered-name")
+	vA(st, okm, "inv-membership-symmetric")
+	vA(st, oke, "inv-no-empty-channel")
 	// a session never lists a channel that does not exist
 	okx := true
 	for r := 0; r < ns; r++ {
@@ -183,21 +183,21 @@ func vInvariant(st *vStep, pre *vPre) {
 			okx = verifAnd(okx, verifImplies(verifAnd(verifSlotPresent(i.sessions, r), verifSlotPresent(s.Channels, q)), ex))
 		}
 	}
-	verifAssert(okx, "inv-listed-channels-exist")
+	vA(st, okx, "inv-listed-channels-exist")
 	// 6. limits (step form: never raised above max(limit, count before))
 	maxS, maxC := i.Config.MaxSessions, i.Config.MaxChannels
 	nsPost, ncPost := uint64(len(i.sessions)), uint64(len(i.channels))
-	verifAssert(verifOr(maxS == 0, nsPost <= maxS, nsPost <= uint64(pre.nsessions)), "inv-session-limit")
-	verifAssert(verifOr(maxC == 0, ncPost <= maxC, ncPost <= uint64(pre.nchannels)), "inv-channel-limit")
+	vA(st, verifOr(maxS == 0, nsPost <= maxS, nsPost <= uint64(pre.nsessions)), "inv-session-limit")
+	vA(st, verifOr(maxC == 0, ncPost <= maxC, ncPost <= uint64(pre.nchannels)), "inv-channel-limit")
 }
 
 // ---------------------------------------------------------------- C15
 
 func vLinesWellFormed(st *vStep) {
 	for _, m := range st.reply.Messages {
-		verifAssert(verifClean(m.Data), "line-free-of-cr-lf-nul")
-		verifAssert(len(m.Data) <= 510, "line-at-most-510-bytes")
-		verifAssert(len(m.Data) > 0, "line-not-empty")
+		vA(st, verifClean(m.Data), "line-free-of-cr-lf-nul")
+		vA(st, len(m.Data) <= 510, "line-at-most-510-bytes")
+		vA(st, len(m.Data) > 0, "line-not-empty")
 	}
 }
 
@@ -218,7 +218,7 @@ func vHygiene(st *vStep) {
 		ok = verifAnd(ok, verifImplies(verifSlotPresent(i.channels, j), verifAnd(
 			verifClean(ch.name), verifClean(ch.topic), verifClean(ch.topicNick), verifClean(ch.key))))
 	}
-	verifAssert(ok, "stored-strings-stay-free-of-cr-lf-nul")
+	vA(st, ok, "stored-strings-stay-free-of-cr-lf-nul")
 }
 
 // ---------------------------------------------------------------- C12
@@ -248,6 +248,11 @@ func vRecipients(st *vStep, pre *vPre) {
 			named := false
 			for p := 0; p < np; p++ {
 				lp := NickToLower(m.Params[p])
+				named = verifOr(named, verifAnd(px.nick != "", lp == NickToLower(px.nick)), verifAnd(sx.Nick != "", lp == NickToLower(sx.Nick)))
+			}
+			// the line is about this session itself: it owns the prefix nickname (before or after)
+			if !fromServer {
+				lp := NickToLower(m.Prefix.Name)
 				named = verifOr(named, verifAnd(px.nick != "", lp == NickToLower(px.nick)), verifAnd(sx.Nick != "", lp == NickToLower(sx.Nick)))
 			}
 			// member (before or after) of a template channel the line names
@@ -283,18 +288,18 @@ func vRecipients(st *vStep, pre *vPre) {
 			if m.Command == irc.ERROR {
 				closing = verifOr(sx.deleted, !vLive(i, sx))
 			}
-			verifAssert(verifImplies(got, verifOr(isActor, named, viaChan, viaSubject, wide, closing)), "recipient-is-entitled")
+			vA(st, verifImplies(got, verifOr(isActor, named, viaChan, viaSubject, wide, closing)), "recipient-is-entitled")
 			// completeness: a channel message reaches every other member
 			if !fromServer && (m.Command == irc.PRIVMSG || m.Command == irc.NOTICE) && len(m.Params) > 0 && st.role != vRoleServices {
 				for c, ch := range t.chans {
 					isTgt := verifAnd(ChanToLower(m.Params[0]) == ChanToLower(ch.name), strings.HasPrefix(m.Params[0], "#"))
-					verifAssert(verifImplies(verifAnd(isTgt, t.member[c][x], !isActor), got), "channel-message-reaches-every-other-member")
+					vA(st, verifImplies(verifAnd(isTgt, t.member[c][x], !isActor), got), "channel-message-reaches-every-other-member")
 				}
 			}
 		}
 		// identity: relayed conversation lines of a client carry the actor's own prefix
 		if !fromServer && st.role != vRoleServices && (m.Command == irc.PRIVMSG || m.Command == irc.NOTICE) {
-			verifAssert(verifAnd(m.Prefix.Name == pre.actor.nick, m.Prefix.User == pre.actor.user, m.Prefix.Host == vHost(st.actor.Id.Id)), "relayed-line-carries-senders-identity")
+			vA(st, verifAnd(m.Prefix.Name == pre.actor.nick, m.Prefix.User == pre.actor.user, m.Prefix.Host == vHost(st.actor.Id.Id)), "relayed-line-carries-senders-identity")
 		}
 	}
 }
@@ -305,7 +310,7 @@ func vPrivileges(st *vStep, pre *vPre) {
 	t, i := st.t, st.t.i
 	if st.role == vRoleServices {
 		// services commands are honoured because the session authenticated as a services link
-		verifAssert(pre.actor.server, "services-commands-only-from-authenticated-link")
+		vA(st, pre.actor.server, "services-commands-only-from-authenticated-link")
 		return
 	}
 	actorIdx := 0
@@ -324,24 +329,24 @@ func vPrivileges(st *vStep, pre *vPre) {
 		for b := 0; b < pc.nbans && b < len(ch.bans); b++ {
 			bansChanged = verifOr(bansChanged, ch.bans[b].pattern != pc.bans[b])
 		}
-		verifAssert(verifImplies(verifOr(modesChanged, ch.key != pc.key), mayMode), "mode-or-key-change-needs-chanop-or-oper")
-		verifAssert(verifImplies(bansChanged, mayMode), "ban-change-needs-chanop-or-oper")
+		vA(st, verifImplies(verifOr(modesChanged, ch.key != pc.key), mayMode), "mode-or-key-change-needs-chanop-or-oper")
+		vA(st, verifImplies(bansChanged, mayMode), "ban-change-needs-chanop-or-oper")
 		// channel operator status
 		for x := range all {
 			lk := NickToLower(all[x].Nick)
 			postOp := vChanOp(ch, lk)
-			verifAssert(verifImplies(verifAnd(vChanExists(i, ch), postOp != t.chanop[c][x], vChanHasNick(ch, lk), t.member[c][x]), mayMode), "chanop-change-needs-chanop-or-oper")
+			vA(st, verifImplies(verifAnd(vChanExists(i, ch), postOp != t.chanop[c][x], vChanHasNick(ch, lk), t.member[c][x]), mayMode), "chanop-change-needs-chanop-or-oper")
 			if x != actorIdx {
 				// somebody else lost membership: KICK (chanop) or removal by an IRC operator
-				verifAssert(verifImplies(verifAnd(t.member[c][x], !vChanHasNick(ch, lk)), verifOr(actorOp, pre.actor.oper)), "removing-another-member-needs-chanop-or-oper")
+				vA(st, verifImplies(verifAnd(t.member[c][x], !vChanHasNick(ch, lk)), verifOr(actorOp, pre.actor.oper)), "removing-another-member-needs-chanop-or-oper")
 				// invitation granted to somebody else
 				inv := all[x].invitedTo[ChanToLower(ch.name)]
-				verifAssert(verifImplies(verifAnd(inv, !pre.sess[x].invited[c]), verifAnd(actorMember, verifOr(!pc.modes['i'], actorOp))), "invite-needs-membership-and-chanop-on-invite-only")
+				vA(st, verifImplies(verifAnd(inv, !pre.sess[x].invited[c]), verifAnd(actorMember, verifOr(!pc.modes['i'], actorOp))), "invite-needs-membership-and-chanop-on-invite-only")
 			}
 		}
 		// topic
 		topicChanged := verifOr(ch.topic != pc.topic, ch.topicNick != pc.topicNick)
-		verifAssert(verifImplies(topicChanged, verifAnd(actorMember, verifOr(!pc.modes['t'], actorOp))), "topic-change-needs-membership-and-chanop-on-plus-t")
+		vA(st, verifImplies(topicChanged, verifAnd(actorMember, verifOr(!pc.modes['t'], actorOp))), "topic-change-needs-membership-and-chanop-on-plus-t")
 		// joining an existing channel
 		joined := verifAnd(!actorMember, vChanHasNick(ch, NickToLower(st.actor.Nick)))
 		pa := pre.actor
@@ -351,39 +356,39 @@ func vPrivileges(st *vStep, pre *vPre) {
 		for b := 0; b < pc.nbans && b < len(ch.bans); b++ {
 			isBanned = verifOr(isBanned, ch.bans[b].re.MatchString(pfx), ch.bans[b].re.MatchString(addr))
 		}
-		verifAssert(verifImplies(verifAnd(joined, bansChanged == false), !isBanned), "join-requires-no-matching-ban")
-		verifAssert(verifImplies(verifAnd(joined, pc.modes['i']), pa.invited[c]), "join-invite-only-requires-invitation")
+		vA(st, verifImplies(verifAnd(joined, bansChanged == false), !isBanned), "join-requires-no-matching-ban")
+		vA(st, verifImplies(verifAnd(joined, pc.modes['i']), pa.invited[c]), "join-invite-only-requires-invitation")
 		if st.cmd == "JOIN" && len(st.msg.Params) >= 1 {
 			key := ""
 			if len(st.msg.Params) >= 2 {
 				key = st.msg.Params[1]
 			}
 			single := verifAnd(!vHasComma(st.msg.Params[0]), !vHasComma(key))
-			verifAssert(verifImplies(verifAnd(joined, single, pc.modes['k'], !pc.modes['x'], !pa.invited[c]), key == pc.key), "join-keyed-channel-requires-key")
+			vA(st, verifImplies(verifAnd(joined, single, pc.modes['k'], !pc.modes['x']), key == pc.key), "join-keyed-channel-requires-key")
 		}
 	}
 	// other sessions ended, bans of the network changed: IRC operator only
 	for x := 1; x < len(t.sess); x++ {
 		gone := verifOr(!vLive(i, t.sess[x]), t.sess[x].deleted)
-		verifAssert(verifImplies(gone, pre.actor.oper), "ending-another-session-needs-oper")
+		vA(st, verifImplies(gone, pre.actor.oper), "ending-another-session-needs-oper")
 	}
-	verifAssert(verifImplies(!verifDeepEq(i.Config.Banned, pre.banned, "nileqempty"), pre.actor.oper), "gline-needs-oper")
+	vA(st, verifImplies(!verifDeepEq(i.Config.Banned, pre.banned, "nileqempty"), pre.actor.oper), "gline-needs-oper")
 	// becoming an operator needs a configured name/password pair
 	if st.cmd == "OPER" && len(st.msg.Params) >= 2 {
 		match := false
 		for _, op := range i.Config.IRC.Operators {
 			match = verifOr(match, verifAnd(op.Name == st.msg.Params[0], op.Password == st.msg.Params[1]))
 		}
-		verifAssert(verifImplies(verifAnd(st.actor.Operator, !pre.actor.oper), match), "oper-needs-configured-credentials")
+		vA(st, verifImplies(verifAnd(st.actor.Operator, !pre.actor.oper), match), "oper-needs-configured-credentials")
 	} else if st.cmd != "NICK" && st.cmd != "USER" && st.cmd != "PASS" {
-		verifAssert(verifImplies(st.actor.Operator, pre.actor.oper), "operator-status-only-through-oper")
+		vA(st, verifImplies(st.actor.Operator, pre.actor.oper), "operator-status-only-through-oper")
 	}
 	// becoming a services link needs a configured services password
 	svc := false
 	for _, sv := range i.Config.IRC.Services {
 		svc = verifOr(svc, pre.actor.pass == "services="+sv.Password)
 	}
-	verifAssert(verifImplies(verifAnd(st.actor.Server, !pre.actor.server), svc), "services-link-needs-configured-password")
+	vA(st, verifImplies(verifAnd(st.actor.Server, !pre.actor.server), svc), "services-link-needs-configured-password")
 }
 
 func vHasComma(s string) bool { return strings.Contains(s, ",") }
@@ -393,7 +398,7 @@ func vHasComma(s string) bool { return strings.Contains(s, ",") }
 func vMarkers(st *vStep) {
 	i := st.t.i
 	live := vLive(i, st.actor)
-	verifAssert(verifImplies(live, i.LastPostMessage(st.actor.Id) == st.rm.ClientMessageId), "duplicate-marker-advanced")
+	vA(st, verifImplies(live, i.LastPostMessage(st.actor.Id) == st.rm.ClientMessageId), "duplicate-marker-advanced")
 }
 
 // vEnded: a session that is gone left no trace (nickname free, no channel lists it).
@@ -406,7 +411,14 @@ func vEnded(st *vStep, pre *vPre) {
 		for j := 0; j < nn; j++ {
 			owns = verifOr(owns, verifAnd(verifSlotPresent(i.nicks, j), verifSlotVal(i.nicks, j).(*Session) == s))
 		}
-		verifAssert(verifImplies(gone, !owns), "ended-session-owns-no-nickname")
+		vA(st, verifImplies(gone, !owns), "ended-session-owns-no-nickname")
 	}
 	_ = pre
+}
+
+// vA asserts with a label that names the call site class (role and command of
+// the step), so that a recorded finding identifies one handler and the same
+// kind of violation in another handler is still reported.
+func vA(st *vStep, c bool, label string) {
+	verifAssert(c, label+":"+vRoleNames[st.role]+":"+st.cmd)
 }
